@@ -149,7 +149,7 @@ def verify_set_thread_map(run, tier):
     _explore(run, tier, sess, thunk, fq, prefix)
 
 
-def _explore(run, tier, sess, thunk, fq, prefix, known_hyp=None):
+def _explore(run, tier, sess, thunk, fq, prefix, known_hyp=None, allow_raise=False):
     try:
         prs = sess.explore(thunk)
     except Unsupported as ex:
@@ -159,6 +159,15 @@ def _explore(run, tier, sess, thunk, fq, prefix, known_hyp=None):
     agg = {}
     for p in prs:
         if p.outcome == 'raise':
+            if allow_raise:
+                # stopping with an error is a legitimate outcome here; the obligations stated before the raise still count
+                for ob in p.obligations:
+                    v = solve.prove(ob.pc, ob.goal, 30000, tier)
+                    cur = agg.setdefault(ob.name, {'status': 'proved', 'ms': 0.0, 'backend': v.backend, 'kind': ob.kind})
+                    cur['ms'] += v.ms
+                    if v.status != 'proved' and cur['status'] == 'proved':
+                        cur.update(status='refuted' if v.status == 'refuted' else 'unknown', detail=v.detail or v.status)
+                continue
             ob = '%s/noraise@%s:%s' % (prefix, p.exc.site[0] if p.exc.site else '?', (p.exc.kind or '').split(':')[0])
             agg[ob] = {'status': 'refuted', 'ms': 0.0, 'backend': 'z3-5.1', 'detail': '%s raised' % p.exc.cls_name, 'pc': p.pc}
             continue
@@ -251,6 +260,9 @@ def verify_parse_v2(run, tier, wf=True):
             # first record.  The obligation is proved for every dump outside that class.
             if state.get('exclude_known', True) and run.known_for('C02/parse_v2/header.ends-at-the-first-record'):
                 ctx.assume(z3.Or(m == 0, f.byte(state['base']) != 0))
+        else:
+            # arbitrary bytes after a version-2 magic (the version-3 path is verified separately)
+            ctx.facts += [f.N >= 4, f.byte(0) == 0x00, f.byte(1) == 0x02, f.byte(2) == 0xaa, f.byte(3) == 0x55]
         reader = stream.Reader(f, 0)
         state['reader'] = reader
         p, tp, pn = make_parser(sess, ctx)
@@ -273,7 +285,7 @@ def verify_parse_v2(run, tier, wf=True):
                     zi(e.fields['tid']) == f.le(HDR + ENTRY * q, 8), zi(e.fields['pid']) == f.le(HDR + ENTRY * q + 8, 4),
                     e.fields['process'].toks[0][1] == CP.CStrOf(f.F, HDR + ENTRY * q + NAME_OFF, z3.IntVal(20))))
         return None
-    _explore(run, tier, sess, thunk, fq, prefix)
+    _explore(run, tier, sess, thunk, fq, prefix, allow_raise=not wf)
 
 
 def run_check(run, tier):
